@@ -299,6 +299,28 @@ pub fn check_model(env: &Env, pre: &str, shrink: bool, o: &Obs, off: Option<&Obs
                 "nonfinite_model.rho_from_class_without_free_sv".into()
             };
         }
+        if nbad == 0 {
+            // closed form: no free coefficient, and all bounded coefficients constrain rho from one side only, so
+            // the interval of admissible thresholds is half-unbounded and its "midpoint" is infinite
+            let yu: Option<(Vec<f64>, Vec<f64>)> = match case.problem {
+                Problem::CSvc { c_pos, c_neg } => Some((
+                    case.labels.iter().map(|&l| if l { 1.0 } else { -1.0 }).collect(),
+                    case.labels.iter().map(|&l| if l { c_pos } else { c_neg }).collect(),
+                )),
+                Problem::OneClass { .. } => Some((vec![1.0; n], vec![1.0; n])),
+                _ => None,
+            };
+            if let Some((y, u)) = yu {
+                let at_up = |i: usize| y[i] * o.alpha[i] >= u[i];
+                let at_lo = |i: usize| o.alpha[i] == 0.0;
+                let nfree = (0..n).filter(|&i| !at_up(i) && !at_lo(i)).count();
+                let has_ub = (0..n).any(|i| (at_up(i) && y[i] < 0.0) || (at_lo(i) && y[i] > 0.0));
+                let has_lb = (0..n).any(|i| (at_up(i) && y[i] > 0.0) || (at_lo(i) && y[i] < 0.0));
+                if nfree == 0 && (!has_ub || !has_lb) {
+                    sig = "nonfinite_model.rho_is_midpoint_of_half_unbounded_interval".into();
+                }
+            }
+        }
         push(&sig, format!("rho = {}, {} of {} coefficients not finite, r (Debug) = {:?}; {}", o.rho, nbad, n, o.debug_r, o.display));
         return;
     }
